@@ -133,3 +133,196 @@ Proof.
      cbn -[dec_value hget_default]; rewrite ?Hbody, ?Hch; repeat split; auto;
      apply N.ltb_ge in E3; lia).
 Qed.
+
+(* ---------------------------------------------------------------- *)
+(* T3: the model's choice is the RFC 9112 section 6.3 choice *)
+
+Definition dev_te_ws : devs :=
+  {| dv_trailer := false; dv_empty_chunk_line := false; dv_reqline_lf := false; dv_te_http10 := false;
+     dv_clte_keepalive := false; dv_conn_list := false; dv_te_ws_element := true; dv_target_dslash := false |}.
+
+Lemma hget_lookup h k : hget h k = lookup h k.
+Proof. induction h as [|[k' v] h IH]; cbn; auto. Qed.
+
+Lemma K_TE_eq : K_TE = s_TRANSFER_ENCODING. Proof. reflexivity. Qed.
+Lemma K_CL_eq : K_CL = s_CONTENT_LENGTH. Proof. reflexivity. Qed.
+Lemma K_CONN_eq : K_CONN = s_CONNECTION. Proof. reflexivity. Qed.
+
+Lemma filter_ext_b {A} (f g : A -> bool) l : (forall x, f x = g x) -> filter f l = filter g l.
+Proof. intro H. induction l as [|x l IH]; simpl; auto. rewrite H, IH. reflexivity. Qed.
+
+Lemma forallb_ext_b {A} (f g : A -> bool) l : (forall x, f x = g x) -> forallb f l = forallb g l.
+Proof. intro H. induction l as [|x l IH]; simpl; auto. rewrite H, IH. reflexivity. Qed.
+
+(* the Transfer-Encoding element list of the model, in the reference's terms *)
+Lemma te_encodings_elems te :
+  te_encodings te = map (fun e => lower_latin1 (trim is_ows e)) (filter nonempty (split_on 44 te [])).
+Proof.
+  unfold te_encodings. rewrite split_comma.
+  rewrite (filter_ext_b (fun e => negb (beqb e [])) nonempty) by (intros [|? ?]; reflexivity).
+  apply map_ext. intro e. rewrite strip_sp_htab. reflexivity.
+Qed.
+
+(* the decision taken on the element list, on both sides *)
+Definition te_verdict_model (encs : list bytes) : option (option perr) :=
+  (* None = no coding: go on to Content-Length; Some None = chunked; Some (Some e) = refuse *)
+  if negb (forallb (fun e => beqb e s_chunked) encs) then Some (Some ETENotSupported)
+  else match encs with
+       | [] => None
+       | _ => if negb (length encs =? 1)%nat then Some (Some ETEMultipleChunked) else Some None
+       end.
+
+Lemma te_verdict_agree (L : list bytes) :
+  match te_verdict_model (map (fun e => lower_latin1 (trim is_ows e)) L),
+        map (fun e => to_lower (trim is_ows e)) L with
+  | None, [] => True
+  | Some None, [e] => beqb e w_chunked = true
+  | Some (Some err), [e] => beqb e w_chunked = false /\ perr_code err = 501
+  | Some (Some err), _ :: _ :: _ => perr_code err = 501
+  | _, _ => False
+  end.
+Proof.
+  unfold te_verdict_model.
+  destruct L as [|x [|y L]]; cbn [map forallb length].
+  - exact I.
+  - rewrite andb_true_r.
+    change s_chunked with w_chunked. rewrite (lower_word_agree _ chunked_ascii).
+    destruct (beqb (to_lower (trim is_ows x)) w_chunked) eqn:E; cbn; auto.
+  - destruct (beqb (lower_latin1 (trim is_ows x)) s_chunked &&
+              (beqb (lower_latin1 (trim is_ows y)) s_chunked &&
+               forallb (fun e => beqb e s_chunked) (map (fun e => lower_latin1 (trim is_ows e)) L)));
+      cbn; auto.
+Qed.
+
+Lemma is_dig_ranges x : in_ranges x [(48, 57)] = is_dig x.
+Proof. unfold is_dig. simpl. rewrite orb_false_r. reflexivity. Qed.
+
+(* the Content-Length gate, as applied to a value without CR / LF, is 1*DIGIT *)
+Lemma gate_content_length_digits v : clean v = true ->
+  matches gate_content_length v = nonempty v && forallb is_dig v.
+Proof.
+  intro Hc.
+  pose proof (content_length_exact v (clean_bytes_ok v Hc) (clean_no_crlf v Hc)) as E.
+  rewrite <- !matches_correct in E. unfold spec_content_length, DIGIT in E.
+  rewrite matches_plus_cls in E.
+  rewrite (forallb_ext_b _ is_dig) in E by apply is_dig_ranges.
+  destruct (matches gate_content_length v), v as [|x v]; cbn [nonempty andb] in *;
+    try (destruct (forallb is_dig (x :: v))); intuition congruence.
+Qed.
+
+Lemma clean_s0 : clean s_0 = true. Proof. reflexivity. Qed.
+
+Lemma cl_stage_agree (d : devs) h :
+  (forall v, hget h s_CONTENT_LENGTH = Some v -> clean v = true) ->
+  choice_framing (model_cl_stage h) =
+  match lookup h K_CL with
+  | None => FrNone
+  | Some v => match content_length_of v with
+              | Some 0 => FrNone
+              | Some n => FrLength n
+              | None => FrRefuse 400
+              end
+  end.
+Proof.
+  intro Hclean. unfold model_cl_stage, hget_default. change lookup with hget. change K_CL with s_CONTENT_LENGTH.
+  destruct (hget h s_CONTENT_LENGTH) as [v|] eqn:E.
+  - rewrite (gate_content_length_digits v (Hclean v eq_refl)).
+    unfold content_length_of, max_cl_digits, int_max_str_digits.
+    destruct (nonempty v && forallb is_dig v); cbn [negb andb]; [|reflexivity].
+    rewrite N.ltb_antisym.
+    destruct (lenN v <=? 4300); cbn [negb]; [|reflexivity].
+    destruct (dec_value v); reflexivity.
+  - reflexivity.
+Qed.
+
+Theorem framing_decision_dev : forall h ver,
+  (forall v, hget h s_CONTENT_LENGTH = Some v -> clean v = true) ->
+  choice_framing (model_framing h ver) = framing_of dev_te_ws ver h.
+Proof.
+  intros h ver Hclean. unfold model_framing, model_te_stage, framing_of.
+  change v11 with s_1_1.
+  destruct (beqb ver s_1_1).
+  - change lookup with hget. change K_TE with s_TRANSFER_ENCODING.
+    assert (Ete : match hget h s_TRANSFER_ENCODING with Some v => list_elems dev_te_ws v | None => [] end
+                  = map (fun e => to_lower (trim is_ows e))
+                        (filter nonempty (split_on 44 (hget_default h s_TRANSFER_ENCODING []) []))).
+    { unfold hget_default. destruct (hget h s_TRANSFER_ENCODING); reflexivity. }
+    rewrite Ete, te_encodings_elems.
+    pose proof (te_verdict_agree (filter nonempty (split_on 44 (hget_default h s_TRANSFER_ENCODING []) []))) as V.
+    unfold te_verdict_model in V.
+    set (L := filter nonempty (split_on 44 (hget_default h s_TRANSFER_ENCODING []) [])) in *.
+    set (EM := map (fun e => lower_latin1 (trim is_ows e)) L) in *.
+    set (ER := map (fun e => to_lower (trim is_ows e)) L) in *.
+    destruct (negb (forallb (fun e => beqb e s_chunked) EM)).
+    + destruct ER as [|e [|e2 ER']]; try contradiction.
+      * destruct V as [V1 V2]. rewrite V1. reflexivity.
+      * reflexivity.
+    + destruct EM as [|m EM'].
+      * destruct ER as [|e [|e2 ER']]; try contradiction.
+        rewrite (cl_stage_agree dev_te_ws).
+        -- change lookup with hget. change K_CL with s_CONTENT_LENGTH. rewrite hget_hpop_other by reflexivity. reflexivity.
+        -- intros v Hv. rewrite hget_hpop_other in Hv by reflexivity. auto.
+      * destruct (negb (length (m :: EM') =? 1)%nat).
+        -- destruct ER as [|e [|e2 ER']]; try contradiction.
+           ++ destruct V as [V1 V2]. rewrite V1. reflexivity.
+           ++ reflexivity.
+        -- destruct ER as [|e [|e2 ER']]; try contradiction.
+           rewrite V. reflexivity.
+  - apply (cl_stage_agree dev_te_ws). exact Hclean.
+Qed.
+
+(* the strict reference ignores whitespace-only list elements (RFC 9110
+   5.6.1); the code does not.  Outside that class the two references agree. *)
+Definition te_ws_free (h : hdict) : bool :=
+  match lookup h K_TE with
+  | Some v => forallb (fun e => negb (nonempty e) || nonempty (trim is_ows e)) (split_on 44 v [])
+  | None => true
+  end.
+
+Lemma to_lower_nonempty e : nonempty (to_lower e) = nonempty e.
+Proof. destruct e; reflexivity. Qed.
+
+Lemma list_elems_ws_free v :
+  forallb (fun e => negb (nonempty e) || nonempty (trim is_ows e)) (split_on 44 v []) = true ->
+  list_elems no_devs v = list_elems dev_te_ws v.
+Proof.
+  unfold list_elems. cbn [dv_te_ws_element no_devs dev_te_ws].
+  induction (split_on 44 v []) as [|e l IH]; cbn [forallb map filter]; auto.
+  intro H. apply andb_true_iff in H as [H1 H2]. rewrite to_lower_nonempty.
+  destruct (nonempty e) eqn:E1; cbn [negb orb] in H1.
+  - rewrite H1. cbn [map]. rewrite IH; auto.
+  - destruct e; try discriminate. cbn. apply IH; auto.
+Qed.
+
+Lemma framing_of_ws_free ver h : te_ws_free h = true ->
+  framing_of no_devs ver h = framing_of dev_te_ws ver h.
+Proof.
+  unfold te_ws_free, framing_of. intro H.
+  destruct (lookup h K_TE) as [v|]; auto.
+  rewrite (list_elems_ws_free v H). reflexivity.
+Qed.
+
+Theorem framing_decision_partial : forall h ver,
+  (forall v, hget h s_CONTENT_LENGTH = Some v -> clean v = true) ->
+  te_ws_free h = true ->
+  choice_framing (model_framing h ver) = framing_of no_devs ver h.
+Proof.
+  intros h ver Hc Hw. rewrite framing_of_ws_free by exact Hw. apply framing_decision_dev. exact Hc.
+Qed.
+
+(* "Transfer-Encoding: chunked" + "Transfer-Encoding: " *)
+Definition te_ws_witness : hdict := [(s_TRANSFER_ENCODING, s_chunked ++ [44; 32])].
+
+Lemma framing_decision_refuted :
+  exists h ver, (forall v, hget h s_CONTENT_LENGTH = Some v -> clean v = true) /\
+                choice_framing (model_framing h ver) <> framing_of no_devs ver h.
+Proof.
+  exists te_ws_witness, s_1_1. split.
+  - intros v H. discriminate H.
+  - vm_compute. discriminate.
+Qed.
+
+Example framing_decision_nontrivial :
+  model_framing [(s_HOST, [104]); (s_TRANSFER_ENCODING, [32; 67; 104; 117; 110; 107; 101; 100; 44])] s_1_1 = MChunked
+  /\ model_framing [(s_CONTENT_LENGTH, [48; 49; 55])] s_1_0 = MLen 17.
+Proof. split; vm_compute; reflexivity. Qed.
